@@ -139,6 +139,7 @@ def main():
     stats = Counter()
     status = Counter()
     distinct = set()
+    distinct_extra = 0
     samples = []
     violations = []
     known_seen = {}
@@ -149,8 +150,12 @@ def main():
             if isinstance(v, (int, float)):
                 stats[k] += v
         if r.get("nontrivial"):
-            for dk in r.get("distinct_keys") or [r.get("distinct_key", r.get("case"))]:
-                distinct.add(json.dumps(dk, sort_keys=True, default=repr))
+            if "distinct_count" in r:
+                # the case counted its own distinct non-trivial sub-cases (disjoint across cases by construction)
+                distinct_extra += int(r["distinct_count"])
+            else:
+                for dk in r.get("distinct_keys") or [r.get("distinct_key", r.get("case"))]:
+                    distinct.add(json.dumps(dk, sort_keys=True, default=repr))
         if r.get("sample") is not None and len(samples) < 6:
             samples.append(r["sample"])
         if r["status"] == "inconclusive":
@@ -184,7 +189,7 @@ def main():
     evaluations = int(stats.get("evaluations", 0)) or (reported - status["skipped-budget"])
     coverage = {
         "evaluations": evaluations,
-        "distinct_nontrivial": len(distinct),
+        "distinct_nontrivial": len(distinct) + distinct_extra,
         "rule": mod.RULE,
         "samples": samples,
         "cases_planned": planned,
@@ -245,8 +250,8 @@ def main():
             reasons.append("worker failure: " + fatal[0][:300])
         if reported - n_incon < mins.get("cases", 1):
             reasons.append(f"only {reported - n_incon} conclusive cases (< {mins.get('cases', 1)})")
-        if len(distinct) < mins.get("nontrivial", 2):
-            reasons.append(f"only {len(distinct)} distinct non-trivial cases (< {mins.get('nontrivial', 2)})")
+        if len(distinct) + distinct_extra < mins.get("nontrivial", 2):
+            reasons.append(f"only {len(distinct) + distinct_extra} distinct non-trivial cases (< {mins.get('nontrivial', 2)})")
         for k, need in (mins.get("observed") or {}).items():
             if stats.get(k, 0) < need:
                 reasons.append(f"monitor counter {k}={stats.get(k, 0)} < {need}")
@@ -264,7 +269,7 @@ def main():
         print(l)
     print(
         f"{prop} {tier} seed={seed}: {ev['verdict']}; cases={reported}/{planned} "
-        f"nontrivial-distinct={len(distinct)} evaluations={evaluations} inconclusive={n_incon} "
+        f"nontrivial-distinct={len(distinct) + distinct_extra} evaluations={evaluations} inconclusive={n_incon} "
         f"known={sum(len(v) for v in known_seen.values())} wall={wall:.1f}s"
     )
     if fatal and rc != 2:
